@@ -835,6 +835,29 @@ impl Gen {
     /// array of small objects over the keys a/b whose key-first and value-first orders differ
     /// (jq orders objects by their sorted key lists first, then by the values in key order)
     pub fn obj_order_array(&mut self) -> V {
+        if self.r.coin() {
+            // objects with the SAME key set, written in non-sorted key order, whose values are
+            // anti-correlated across keys: jq's object order (sorted key sets, then values in
+            // sorted-key order) differs from any order that follows insertion order
+            let n = self.r.range(2, 4) as usize;
+            let three = self.r.coin();
+            return V::Arr(
+                (0..n)
+                    .map(|i| {
+                        let a = i as i64;
+                        let b = (n - i) as i64;
+                        let mut kv = vec![("b".to_string(), V::int(b)), ("a".to_string(), V::int(a))];
+                        if three {
+                            kv.insert(0, ("c".to_string(), V::int(self.r.below(2) as i64)));
+                        }
+                        if self.r.chance(1, 3) {
+                            kv.reverse();
+                        }
+                        V::Obj(kv)
+                    })
+                    .collect(),
+            );
+        }
         let n = self.r.range(2, 4) as usize;
         V::Arr(
             (0..n)
